@@ -1079,6 +1079,8 @@ func (p *parser) readLookupFlags() gtab.LookupFlags {
 		switch which {
 		case "marks":
 			flags |= gtab.IgnoreMarks
+		case "rtl":
+			flags |= gtab.RightToLeft
 		case "ligs":
 			flags |= gtab.IgnoreLigatures
 		case "base":
